@@ -97,6 +97,9 @@ def run(prop, tier, *, mc_module, mc_cfg, driver, trace_module, trace_spec="TSpe
         cur_chunk, cur = chunk, vr
         rounds = 0
         while not cur.ok:
+            if len(violations) >= C.MAX_VIOLATIONS:
+                C.log("[%s] %d witnesses reported; further rejected traces are not enumerated" % (prop, len(violations)))
+                break
             if not cur.postcondition_false:
                 raise C.Infra("trace validation failed on %s:\n%s" % (cur_chunk, cur.out[-3000:]))
             idx = unconsumed_index(cur)
@@ -111,9 +114,6 @@ def run(prop, tier, *, mc_module, mc_cfg, driver, trace_module, trace_spec="TSpe
                 raise C.Infra("rejected trace did not reproduce in isolation: %s" % replay)
             violations.append(dict(key=key, replay=replay, text="rejected event: %s" % json.dumps(evs[min(idx - 1 - j, len(evs) - 1)])[:300]))
             rounds += 1
-            if rounds >= 60:
-                C.log("[%s] more than 60 rejected cases in one chunk; stopping enumeration" % prop)
-                break
             rest = open(cur_chunk).read().splitlines(keepends=True)[k:]
             if not rest:
                 break
